@@ -70,7 +70,7 @@ def register(reg):
   ret = "ghost('phase_return')"
   bad = ('(%s is not None and not isinstance(%s, phase_descriptor.PhaseResult)) or '
          '(%s is %s.FAIL_SUBTEST and self._subtest_rec is None)' % (ret, ret, ret, PR))
-  c = reg.contract(PE, 'PhaseExecutorThread._thread_proc', props=['C05'])
+  c = reg.contract(PE, 'PhaseExecutorThread._thread_proc', props=['C05', 'C01'])
   c.raises('InvalidPhaseResultError', when=bad,
            ensures=[('no_outcome_published', 'self._phase_execution_outcome is old(self._phase_execution_outcome)')])
   c.raises('Exception').raises('BaseException')
@@ -341,6 +341,15 @@ def register_executor(reg):
   c.ensures('ERROR_record_means_terminal_result', 'implies(%s and %s.outcome is %s.ERROR, result[0].is_terminal)' % (one, last, PO))
   c.ensures('PASS_record_means_CONTINUE', 'implies(%s and %s.outcome is %s.PASS, result[0].phase_result is %s.CONTINUE)' % (one, last, PO, PR))
   c.ensures('repeat_limit_becomes_STOP', 'implies(result[0].phase_result is %s.REPEAT, not is_last_repeat)' % PR)
+  lr = last + '.result'
+  c.ensures('record_keeps_the_body_result', 'implies(%s, %s is not None)' % (one, lr))
+  c.ensures('exceeding_the_repeat_limit_is_an_ERROR_and_stops',
+            'implies(%s and %s.phase_result is %s.REPEAT and is_last_repeat, %s.outcome is %s.ERROR and result[0].phase_result is %s.STOP)'
+            % (one, lr, PR, last, PO, PR))
+  c.ensures('a_non_final_REPEAT_is_SKIP', 'implies(%s and %s.phase_result is %s.REPEAT and not is_last_repeat, %s.outcome is %s.SKIP and result[0] is %s)'
+            % (one, lr, PR, last, PO, lr))
+  c.ensures('SKIP_result_is_SKIP', 'implies(%s and %s.phase_result is %s.SKIP, %s.outcome is %s.SKIP)' % (one, lr, PR, last, PO))
+  c.ensures('terminal_body_result_is_ERROR', 'implies(%s and %s.is_terminal, %s.outcome is %s.ERROR and result[0].is_terminal)' % (one, lr, last, PO))
   c.ensures('fail_subtest_only_in_subtest', 'implies(result[0].is_fail_subtest, subtest_rec is not None)')
   c.ensures('phase_slot_released', 'self.test_state.running_phase_state is None')
   c.modifies('*user', 'list(%s)' % records, 'self.test_state.running_phase_state', 'self.test_state._running_test_api',
